@@ -4,8 +4,10 @@ import SlipVerif.Lemmas.Dispatch
 
   The statements are about `SlipVerif.Dispatch.step` / `runOps` (the implementation-shaped model
   the correspondence harness runs against pkg/generic) and `spec` / `tableOf` (the property's
-  statement: no cache, no fast path).  All of them hold for arbitrary class precedence lists
-  `E.cpl`, arbitrary numbers of required arguments and arbitrary histories.
+  statement: no cache, no fast path).  All of them hold for arbitrary class precedence lists of
+  the arguments of every single call (so for classes redefined in the middle of a history, and for
+  instances of the old and the new definition of a class used side by side), arbitrary numbers of
+  required arguments and arbitrary histories.
 -/
 namespace SlipVerif.Dispatch
 
@@ -133,14 +135,14 @@ theorem specArounds_res (inner : Out) (hasInner : Bool) (ar : List Body)
       cases hr : (specArounds inner hasInner rest).res <;> simp_all
 
 /-- no-applicable-method is signalled exactly when no method of any qualifier is applicable -/
-theorem spec_noApplicable_iff (E : Env) (t : Table) (cs : List Cls) :
-    (spec E t cs).res = .noApplicable ↔ ∀ q, applicable t (cs.map E.cpl) q = [] := by
+theorem spec_noApplicable_iff (t : Table) (precs : Precs) :
+    (spec t precs).res = .noApplicable ↔ ∀ q, applicable t precs q = [] := by
   unfold spec
   simp only []
   constructor
   · intro h q
-    by_cases hc : ((applicable t (cs.map E.cpl) .around).isEmpty && (applicable t (cs.map E.cpl) .before).isEmpty
-        && (applicable t (cs.map E.cpl) .primary).isEmpty && (applicable t (cs.map E.cpl) .after).isEmpty) = true
+    by_cases hc : ((applicable t precs .around).isEmpty && (applicable t precs .before).isEmpty
+        && (applicable t precs .primary).isEmpty && (applicable t precs .after).isEmpty) = true
     · simp only [Bool.and_eq_true, List.isEmpty_iff] at hc
       obtain ⟨⟨⟨h1, h2⟩, h3⟩, h4⟩ := hc
       cases q <;> assumption
@@ -152,11 +154,12 @@ theorem spec_noApplicable_iff (E : Env) (t : Table) (cs : List Cls) :
 /-! ## 3. the cache and the fast path stay a function of the method table -/
 
 /-- The invariant of `generic.Aux`: no empty combination is stored, every cached effective method
-    is what the walk would build now for its key (and is not empty), and the fast-path caller is
-    what `updateDefaultCaller` would compute now. -/
+    is what the walk would build now for its key — the class precedence lists of the arguments it
+    was built for — (and is not empty), and the fast-path caller is what `updateDefaultCaller`
+    would compute now. -/
 structure Inv (E : Env) (a : Aux) : Prop where
   noEmpty : NoEmpty a.methods
-  cache : ∀ k e, lookup a.cache k = some e → e = collect a.methods (k.map E.cpl) [] ∧ e ≠ []
+  cache : ∀ k e, lookup a.cache k = some e → e = collect a.methods k [] ∧ e ≠ []
   dflt : a.dflt = dfltOf E.tC E.n a.methods
 
 theorem cache_coherent_init (E : Env) : Inv E Aux.init :=
@@ -173,22 +176,23 @@ theorem cache_coherent (E : Env) (a : Aux) (op : Op) (h : Inv E a) : Inv E (step
     | none => exact h
     | some c =>
       exact ⟨noEmpty_removeMethod _ _ _ h.noEmpty, by intro k e he; simp [lookup] at he, rfl⟩
-  | call cs =>
+  | methods precs => exact h
+  | call precs =>
     simp only [step]
     cases hd : a.dflt with
     | some b => exact h
     | none =>
-      cases hc : lookup a.cache cs with
+      cases hc : lookup a.cache precs with
       | some eff => exact h
       | none =>
-        by_cases he : (collect a.methods (cs.map E.cpl) []).isEmpty = true
+        by_cases he : (collect a.methods precs []).isEmpty = true
         · simp only [he, if_true]; exact h
-        · have he' : (collect a.methods (cs.map E.cpl) []).isEmpty = false := by simpa using he
+        · have he' : (collect a.methods precs []).isEmpty = false := by simpa using he
           simp only [he', Bool.false_eq_true, if_false]
           refine ⟨h.noEmpty, ?_, hd.symm.trans h.dflt⟩
           intro k e hk
           simp only [lookup_insert] at hk
-          by_cases hkc : k = cs
+          by_cases hkc : k = precs
           · subst hkc
             simp at hk
             subst hk
@@ -198,8 +202,32 @@ theorem cache_coherent (E : Env) (a : Aux) (op : Op) (h : Inv E a) : Inv E (step
           · simp [hkc] at hk
             exact h.cache k e hk
 
-example : Inv ⟨fun c => [c, 0], 0, 1⟩ (step ⟨fun c => [c, 0], 0, 1⟩ Aux.init (.defmethod .primary [0] ⟨1, .stop⟩)).1 :=
+example : Inv ⟨0, 1⟩ (step ⟨0, 1⟩ Aux.init (.defmethod .primary [0] ⟨1, .stop⟩)).1 :=
   cache_coherent _ _ _ (cache_coherent_init _)
+
+/-- **Eviction is safe.** Dropping any cache entry at any time (a bounded cache, a selective
+    invalidation that drops more than it must, the conditional `if 0 < len(aux.cache)` reset)
+    keeps the invariant: the proofs below need the cache to hold nothing wrong, never to hold
+    anything. -/
+theorem cache_eviction_safe (E : Env) (a : Aux) (k : Precs) (h : Inv E a) :
+    Inv E { a with cache := erase a.cache k } := by
+  refine ⟨h.noEmpty, ?_, h.dflt⟩
+  intro k' e hk
+  simp only [lookup_erase] at hk
+  by_cases hkk : k' = k
+  · simp [hkk] at hk
+  · simp [hkk] at hk
+    exact h.cache k' e hk
+
+/-- … and so is dropping the whole cache without a table change. -/
+theorem cache_flush_safe (E : Env) (a : Aux) (h : Inv E a) : Inv E { a with cache := [] } :=
+  ⟨h.noEmpty, by intro k e hk; simp [lookup] at hk, h.dflt⟩
+
+/-- A call after an eviction still equals the specification (instance of `call_eq_spec` below is
+    `call_after_eviction_eq_spec`). -/
+example : Inv ⟨0, 1⟩ { (step ⟨0, 1⟩ (step ⟨0, 1⟩ Aux.init (.defmethod .before [0] ⟨1, .stop⟩)).1 (.call [[2, 0]])).1
+    with cache := erase (step ⟨0, 1⟩ (step ⟨0, 1⟩ Aux.init (.defmethod .before [0] ⟨1, .stop⟩)).1 (.call [[2, 0]])).1.cache [[2, 0]] } :=
+  cache_eviction_safe _ _ _ (cache_coherent _ _ _ (cache_coherent _ _ _ (cache_coherent_init _)))
 
 /-- the abstract table follows the history: `defmethod` sets and `remove-method` clears exactly
     the addressed (specializer tuple, qualifier) slot; a call changes nothing -/
@@ -215,25 +243,26 @@ theorem table_step (E : Env) (a : Aux) (op : Op) :
       simp only [removeMethod, hl] at this
       exact this
     | some c => exact absT_removeMethod a.methods q k
-  | call cs =>
+  | methods precs => rfl
+  | call precs =>
     simp only [step, tableOf]
     cases a.dflt with
     | some b => rfl
     | none =>
-      cases lookup a.cache cs with
+      cases lookup a.cache precs with
       | some eff => rfl
       | none =>
-        by_cases he : (collect a.methods (cs.map E.cpl) []).isEmpty = true
+        by_cases he : (collect a.methods precs []).isEmpty = true
         · simp [he]
         · simp [he]
 
 /-! ## 4. a call equals the specification -/
 
 /-- building the effective method from the table and running it is the specification -/
-theorem build_eq_spec (E : Env) (ms : Methods) (hne : NoEmpty ms) (cs : List Cls) :
-    (if (collect ms (cs.map E.cpl) []).isEmpty then (⟨[], .noApplicable⟩ : Out)
-     else callEff (collect ms (cs.map E.cpl) [])) = spec E (absT ms) cs := by
-  have hmem : ∀ c ∈ collect ms (cs.map E.cpl) [], c.isEmpty = false := by
+theorem build_eq_spec (ms : Methods) (hne : NoEmpty ms) (precs : Precs) :
+    (if (collect ms precs []).isEmpty then (⟨[], .noApplicable⟩ : Out)
+     else callEff (collect ms precs [])) = spec (absT ms) precs := by
+  have hmem : ∀ c ∈ collect ms precs [], c.isEmpty = false := by
     intro c hc
     rw [collect_nil_pre, List.mem_filterMap] at hc
     obtain ⟨k, _, hk⟩ := hc
@@ -241,10 +270,10 @@ theorem build_eq_spec (E : Env) (ms : Methods) (hne : NoEmpty ms) (cs : List Cls
   rw [eff_empty_iff _ hmem, effective_order]
   unfold spec
   simp only [collect_nil_pre]
-  have e1 := collected_get ms (cs.map E.cpl) .around
-  have e2 := collected_get ms (cs.map E.cpl) .before
-  have e3 := collected_get ms (cs.map E.cpl) .primary
-  have e4 := collected_get ms (cs.map E.cpl) .after
+  have e1 := collected_get ms precs .around
+  have e2 := collected_get ms precs .before
+  have e3 := collected_get ms precs .primary
+  have e4 := collected_get ms precs .after
   simp only [Combo.get] at e1 e2 e3 e4
   rw [e1, e2, e3, e4]
 
@@ -254,9 +283,9 @@ example : NoEmpty [([1], ⟨some ⟨7, .stop⟩, none, none, none⟩)] := by
   subst h; rfl
 
 /-- the single-method fast path returns what the specification says -/
-theorem dflt_eq_spec (E : Env) (ms : Methods) (b : Body) (cs : List Cls)
-    (hT : ∀ c, E.tC ∈ E.cpl c) (hlen : cs.length = E.n) (hd : dfltOf E.tC E.n ms = some b) :
-    (⟨[.run b.id], .val (some b.id)⟩ : Out) = spec E (absT ms) cs := by
+theorem dflt_eq_spec (E : Env) (ms : Methods) (b : Body) (precs : Precs)
+    (hT : ∀ p ∈ precs, E.tC ∈ p) (hlen : precs.length = E.n) (hd : dfltOf E.tC E.n ms = some b) :
+    (⟨[.run b.id], .val (some b.id)⟩ : Out) = spec (absT ms) precs := by
   unfold dfltOf at hd
   match ms, hd with
   | [(k, c)], hd =>
@@ -266,13 +295,13 @@ theorem dflt_eq_spec (E : Env) (ms : Methods) (b : Body) (cs : List Cls)
       have hget : ∀ q k', absT [(k, c)] k' q = if k = k' then c.get q else none := by
         intro q k'
         by_cases e : k = k' <;> simp [absT, lookup, e]
-      have hnone : ∀ q, c.get q = none → applicable (absT [(k, c)]) (cs.map E.cpl) q = [] := by
+      have hnone : ∀ q, c.get q = none → applicable (absT [(k, c)]) precs q = [] := by
         intro q hq
         unfold applicable
         rw [List.filterMap_eq_nil_iff]
         intro k' _
         rw [hget]; split <;> simp [hq]
-      have hprim : (applicable (absT [(k, c)]) (cs.map E.cpl) .primary).head? = some b := by
+      have hprim : (applicable (absT [(k, c)]) precs .primary).head? = some b := by
         unfold applicable
         apply filterMap_head_of_const
         · intro k' _
@@ -281,42 +310,88 @@ theorem dflt_eq_spec (E : Env) (ms : Methods) (b : Body) (cs : List Cls)
           · right; rfl
         · refine ⟨k, ?_, ?_⟩
           · rw [mem_keys, hk, ← hlen]
-            exact applicable_replicate cs E.cpl E.tC hT
+            exact applicable_replicate precs E.tC hT
           · rw [hget]; simpa [Combo.get] using hd
       unfold spec
       simp only []
       rw [hnone .around (by simpa [Combo.get] using hw), hnone .before (by simpa [Combo.get] using hb),
         hnone .after (by simpa [Combo.get] using ha), hprim]
-      cases hp : applicable (absT [(k, c)]) (cs.map E.cpl) .primary with
+      cases hp : applicable (absT [(k, c)]) precs .primary with
       | nil => rw [hp] at hprim; simp at hprim
       | cons x r => simp [specRun, specArounds, specInner]
     · simp [hcond] at hd
 
 example : dfltOf 0 1 [([0], ⟨some ⟨1, .stop⟩, none, none, none⟩)] = some ⟨1, .stop⟩ := by decide
 
+/-- a call is made with one class precedence list per required argument, each containing `t` -/
+def GoodArgs (E : Env) (precs : Precs) : Prop := precs.length = E.n ∧ ∀ p ∈ precs, E.tC ∈ p
+
+example : GoodArgs ⟨0, 2⟩ [[3, 2, 0], [0]] := by simp [GoodArgs]
+
 /-- **A call equals the specification on the current table**, whatever is in the cache and
     whether or not the fast path is taken — provided the state satisfies the invariant. -/
-theorem call_eq_spec (E : Env) (a : Aux) (h : Inv E a) (cs : List Cls)
-    (hT : ∀ c, E.tC ∈ E.cpl c) (hlen : cs.length = E.n) :
-    (step E a (.call cs)).2 = spec E (absT a.methods) cs := by
+theorem call_eq_spec (E : Env) (a : Aux) (h : Inv E a) (precs : Precs) (hg : GoodArgs E precs) :
+    (step E a (.call precs)).2 = spec (absT a.methods) precs := by
   simp only [step]
   cases hd : a.dflt with
   | some b =>
-    exact dflt_eq_spec E a.methods b cs hT hlen (h.dflt ▸ hd)
+    exact dflt_eq_spec E a.methods b precs hg.2 hg.1 (h.dflt ▸ hd)
   | none =>
-    cases hc : lookup a.cache cs with
+    cases hc : lookup a.cache precs with
     | some eff =>
-      obtain ⟨he, hne⟩ := h.cache cs eff hc
-      have := build_eq_spec E a.methods h.noEmpty cs
+      obtain ⟨he, hne⟩ := h.cache precs eff hc
+      have := build_eq_spec a.methods h.noEmpty precs
       rw [← he] at this
       have hne' : eff.isEmpty = false := by cases eff <;> simp_all
       simp only [hne'] at this
       simpa using this
     | none =>
-      have := build_eq_spec E a.methods h.noEmpty cs
-      by_cases he : (collect a.methods (cs.map E.cpl) []).isEmpty = true
+      have := build_eq_spec a.methods h.noEmpty precs
+      by_cases he : (collect a.methods precs []).isEmpty = true
       · simp only [he, if_true] at this ⊢; exact this
       · simp only [he] at this ⊢; exact this
+
+/-- a call made after any cache entry was evicted equals the specification as well -/
+theorem call_after_eviction_eq_spec (E : Env) (a : Aux) (h : Inv E a) (k precs : Precs) (hg : GoodArgs E precs) :
+    (step E { a with cache := erase a.cache k } (.call precs)).2 = spec (absT a.methods) precs :=
+  call_eq_spec E _ (cache_eviction_safe E a k h) precs hg
+
+/-- **compute-applicable-methods equals the specification**: the second copy of the nested walk
+    (`Aux.compMeths` with its accumulator, `Aux.compMethList`) lists the methods the property names,
+    in the order they run: every applicable :around and :before most specific first, the most
+    specific primary, every :after least specific first. It never looks at the cache. -/
+theorem compMethList_eq_spec (ms : Methods) (precs : Precs) :
+    compMethList ms precs = specMethodList (absT ms) precs := by
+  unfold compMethList specMethodList
+  simp only [compMeths_eq, foldl_compStep, MethComp.empty, List.nil_append, collect_nil_pre]
+  have e1 := collected_get ms precs .around
+  have e2 := collected_get ms precs .before
+  have e3 := collected_get ms precs .primary
+  have e4 := collected_get ms precs .after
+  simp only [Combo.get] at e1 e2 e3 e4
+  rw [e1, e2, e3, e4]
+
+/-- The list of compute-applicable-methods is the order in which a call starts the bodies (when
+    every :around continues and something is inside), and the call's value is its primary's. -/
+theorem methodList_is_run_order (t : Table) (precs : Precs)
+    (hcont : ∀ b ∈ applicable t precs .around, b.mode ≠ .stop)
+    (hin : (!(applicable t precs .before).isEmpty || (applicable t precs .primary).head?.isSome
+            || !(applicable t precs .after).isEmpty) = true) :
+    entered (spec t precs).trace = (specMethodList t precs).map (·.2) := by
+  have hne : ((applicable t precs .around).isEmpty && (applicable t precs .before).isEmpty
+      && (applicable t precs .primary).isEmpty && (applicable t precs .after).isEmpty) = false := by
+    cases hb : applicable t precs .before <;> cases hp : applicable t precs .primary <;>
+      cases ha : applicable t precs .after <;> simp_all
+  unfold spec specMethodList
+  simp only [hne, Bool.false_eq_true, if_false]
+  rw [(spec_order _ _ _ _ hcont hin).1]
+  simp [List.map_append, List.map_map, Function.comp_def, Option.toList]
+
+example : (∀ b ∈ applicable (Table.empty.set [0] .primary (some ⟨1, .stop⟩)) [[2, 0]] .around, b.mode ≠ .stop)
+    ∧ (!(applicable (Table.empty.set [0] .primary (some ⟨1, .stop⟩)) [[2, 0]] .before).isEmpty
+        || (applicable (Table.empty.set [0] .primary (some ⟨1, .stop⟩)) [[2, 0]] .primary).head?.isSome
+        || !(applicable (Table.empty.set [0] .primary (some ⟨1, .stop⟩)) [[2, 0]] .after).isEmpty) = true := by
+  decide
 
 /-! ## 5. histories -/
 
@@ -331,72 +406,109 @@ theorem run_table (E : Env) (a : Aux) (ops : List Op) :
   | nil => rfl
   | cons op ops ih => rw [run_cons, ih, table_step, ← tableOf_cons]
 
-/-- every call of a history is made with one class per required argument -/
-def WellFormed (E : Env) (ops : List Op) : Prop := ∀ cs, Op.call cs ∈ ops → cs.length = E.n
+/-- every call of a history is made with one class precedence list per required argument, each
+    containing `t` -/
+def WellFormed (E : Env) (ops : List Op) : Prop := ∀ precs, Op.call precs ∈ ops → GoodArgs E precs
 
-/-- **History independence.** After any history `ops` of defmethod / remove-method / call
-    operations, a call with argument classes `cs` produces exactly what the cache-free
-    specification yields on the table that `ops` defines: earlier calls (and whatever they left in
-    the cache or the fast path) have no influence. -/
-theorem dispatch_history_independent (E : Env) (hT : ∀ c, E.tC ∈ E.cpl c)
-    (ops : List Op) (cs : List Cls) (hlen : cs.length = E.n) :
-    (step E (run E Aux.init ops) (.call cs)).2 = spec E (tableOf ops Table.empty) cs := by
-  rw [call_eq_spec E _ (run_inv E _ ops (cache_coherent_init E)) cs hT hlen, run_table, absT_init]
+/-- **History independence.** After any history `ops` of defmethod / remove-method / call /
+    compute-applicable-methods operations, a call with arguments whose class precedence lists are
+    `precs` produces exactly what the cache-free specification yields on the table that `ops`
+    defines: earlier calls (and whatever they left in the cache or the fast path) have no
+    influence. The precedence lists of this call and of the earlier ones are arbitrary: the
+    statement covers classes redefined during the history. -/
+theorem dispatch_history_independent (E : Env) (ops : List Op) (precs : Precs) (hg : GoodArgs E precs) :
+    (step E (run E Aux.init ops) (.call precs)).2 = spec (tableOf ops Table.empty) precs := by
+  rw [call_eq_spec E _ (run_inv E _ ops (cache_coherent_init E)) precs hg, run_table, absT_init]
 
-example : (∀ c, (0 : Cls) ∈ (fun c => [c, 0]) c) ∧ [3].length = 1 := by simp
+/-- compute-applicable-methods after any history lists the specification's methods -/
+theorem methods_history_independent (E : Env) (ops : List Op) (precs : Precs) :
+    (step E (run E Aux.init ops) (.methods precs)).2
+      = ⟨[], .methods (specMethodList (tableOf ops Table.empty) precs)⟩ := by
+  simp only [step]
+  rw [compMethList_eq_spec, run_table, absT_init]
+
+/-- **Cache coherence under class redefinition.** Two arguments of one class *name* (the head of
+    the precedence list) but different precedence lists — an instance made before and one made
+    after `(defclass c …)` was evaluated again with other superclasses, or after a superclass was
+    redefined — never share a cache entry: each call, wherever it stands in the history and
+    whatever was called before, gets the specification's outcome for its own precedence list. -/
+theorem class_redefinition_coherent (E : Env) (ops mid : List Op) (c : Cls) (old new : List Cls)
+    (ho : GoodArgs E [c :: old]) (hn : GoodArgs E [c :: new]) :
+    (step E (run E Aux.init ops) (.call [c :: old])).2 = spec (tableOf ops Table.empty) [c :: old]
+    ∧ (step E (run E Aux.init (ops ++ Op.call [c :: old] :: mid)) (.call [c :: new])).2
+        = spec (tableOf mid (tableOf ops Table.empty)) [c :: new] := by
+  refine ⟨dispatch_history_independent E ops _ ho, ?_⟩
+  rw [dispatch_history_independent E _ _ hn, tableOf_append, tableOf_cons]
+  rfl
+
+example : GoodArgs ⟨0, 1⟩ [3 :: [0]] ∧ GoodArgs ⟨0, 1⟩ [3 :: [2, 0]] := by simp [GoodArgs]
+
+/-- test: class 3 first has the precedence list (3 t), is called (the entry is cached), then is
+    redefined below class 2: the next call with a new instance runs the method on 2, a call with an
+    instance made before the redefinition still runs the one on t -/
+example : (runOps ⟨0, 1⟩ Aux.init
+      [.defmethod .primary [0] ⟨1, .stop⟩, .defmethod .primary [2] ⟨2, .stop⟩, .defmethod .before [0] ⟨3, .stop⟩,
+       .call [[3, 0]], .call [[3, 2, 0]], .call [[3, 0]]]).2.map (·.res)
+    = [.noCall, .noCall, .noCall, .val (some 1), .val (some 2), .val (some 1)] := by decide
 
 /-- A defmethod or remove-method issued after any history (with earlier calls in it) takes effect
     on the very next call: that call sees the table with exactly that one slot changed. -/
-theorem mutation_takes_effect_on_next_call (E : Env) (hT : ∀ c, E.tC ∈ E.cpl c)
-    (ops : List Op) (m : Op) (cs : List Cls) (hlen : cs.length = E.n) :
-    (step E (run E Aux.init (ops ++ [m])) (.call cs)).2
-      = spec E (tableOf [m] (tableOf ops Table.empty)) cs := by
-  rw [dispatch_history_independent E hT _ cs hlen, tableOf_append]
+theorem mutation_takes_effect_on_next_call (E : Env) (ops : List Op) (m : Op) (precs : Precs)
+    (hg : GoodArgs E precs) :
+    (step E (run E Aux.init (ops ++ [m])) (.call precs)).2
+      = spec (tableOf [m] (tableOf ops Table.empty)) precs := by
+  rw [dispatch_history_independent E _ precs hg, tableOf_append]
 
 /-- two histories that define the same table are indistinguishable by any later call -/
-theorem same_table_same_outcome (E : Env) (hT : ∀ c, E.tC ∈ E.cpl c)
-    (ops1 ops2 : List Op) (cs : List Cls) (hlen : cs.length = E.n)
+theorem same_table_same_outcome (E : Env) (ops1 ops2 : List Op) (precs : Precs) (hg : GoodArgs E precs)
     (htab : tableOf ops1 Table.empty = tableOf ops2 Table.empty) :
-    (step E (run E Aux.init ops1) (.call cs)).2 = (step E (run E Aux.init ops2) (.call cs)).2 := by
-  rw [dispatch_history_independent E hT ops1 cs hlen, dispatch_history_independent E hT ops2 cs hlen, htab]
+    (step E (run E Aux.init ops1) (.call precs)).2 = (step E (run E Aux.init ops2) (.call precs)).2 := by
+  rw [dispatch_history_independent E ops1 precs hg, dispatch_history_independent E ops2 precs hg, htab]
 
-example : tableOf [.defmethod .primary [0] ⟨1, .stop⟩, .call [3], .defmethod .primary [0] ⟨2, .stop⟩] Table.empty
+example : tableOf [.defmethod .primary [0] ⟨1, .stop⟩, .call [[3, 0]], .defmethod .primary [0] ⟨2, .stop⟩] Table.empty
     = tableOf [.defmethod .primary [0] ⟨2, .stop⟩] Table.empty := by
   funext k q
   simp only [tableOf, Table.set, Table.empty]
   by_cases h : k = [0] ∧ q = Qual.primary <;> simp [h]
 
+/-- the operations of a history that change the method table -/
+def isMutation : Op → Bool
+  | .defmethod .. => true
+  | .remove .. => true
+  | _ => false
+
 /-- Calls never change the table: the table of a history is that of its mutations alone. -/
 theorem calls_do_not_matter (ops : List Op) (t : Table) :
-    tableOf ops t = tableOf (ops.filter (fun op => match op with | .call _ => false | _ => true)) t := by
+    tableOf ops t = tableOf (ops.filter isMutation) t := by
   induction ops generalizing t with
   | nil => rfl
   | cons op ops ih =>
     cases op with
-    | call cs => simpa [tableOf] using ih t
-    | defmethod q k b => simpa [tableOf] using ih _
-    | remove q k => simpa [tableOf] using ih _
+    | call precs => simpa [tableOf, isMutation] using ih t
+    | methods precs => simpa [tableOf, isMutation] using ih t
+    | defmethod q k b =>
+      have : (Op.defmethod q k b :: ops).filter isMutation = Op.defmethod q k b :: ops.filter isMutation := rfl
+      rw [this]; simpa [tableOf] using ih _
+    | remove q k =>
+      have : (Op.remove q k :: ops).filter isMutation = Op.remove q k :: ops.filter isMutation := rfl
+      rw [this]; simpa [tableOf] using ih _
 
 /-- **Post-quiescence judgement of the race rounds.** However the racing calls were interleaved
     with the mutations (two histories with the same mutations in the same order, calls anywhere),
     a call made after everything has finished has one outcome: the specification's on the table of
     the mutations. This is what the harness demands of the implementation after each round. -/
-theorem post_quiescence_outcome (E : Env) (hT : ∀ c, E.tC ∈ E.cpl c)
-    (ops1 ops2 : List Op) (cs : List Cls) (hlen : cs.length = E.n)
-    (hmut : ops1.filter (fun op => match op with | .call _ => false | _ => true)
-          = ops2.filter (fun op => match op with | .call _ => false | _ => true)) :
-    (step E (run E Aux.init ops1) (.call cs)).2 = (step E (run E Aux.init ops2) (.call cs)).2 := by
-  apply same_table_same_outcome E hT ops1 ops2 cs hlen
+theorem post_quiescence_outcome (E : Env) (ops1 ops2 : List Op) (precs : Precs) (hg : GoodArgs E precs)
+    (hmut : ops1.filter isMutation = ops2.filter isMutation) :
+    (step E (run E Aux.init ops1) (.call precs)).2 = (step E (run E Aux.init ops2) (.call precs)).2 := by
+  apply same_table_same_outcome E ops1 ops2 precs hg
   rw [calls_do_not_matter ops1, calls_do_not_matter ops2, hmut]
 
-example : ([Op.call [3], .defmethod .primary [0] ⟨1, .stop⟩, .call [2]].filter
-      (fun op => match op with | .call _ => false | _ => true))
-    = ([Op.defmethod .primary [0] ⟨1, .stop⟩, .call [3]].filter
-      (fun op => match op with | .call _ => false | _ => true)) := by decide
+example : ([Op.call [[3, 0]], .defmethod .primary [0] ⟨1, .stop⟩, .call [[2, 0]]].filter isMutation)
+    = ([Op.defmethod .primary [0] ⟨1, .stop⟩, .call [[3, 0]]].filter isMutation) := by decide
 
-theorem runOps_eq_specOuts (E : Env) (hT : ∀ c, E.tC ∈ E.cpl c) (a : Aux) (h : Inv E a)
+theorem runOps_eq_specOuts (E : Env) (a : Aux) (h : Inv E a)
     (ops : List Op) (hwf : WellFormed E ops) :
-    (runOps E a ops).2 = specOuts E ops (absT a.methods) := by
+    (runOps E a ops).2 = specOuts ops (absT a.methods) := by
   induction ops generalizing a with
   | nil => rfl
   | cons op ops ih =>
@@ -411,21 +523,22 @@ theorem runOps_eq_specOuts (E : Env) (hT : ∀ c, E.tC ∈ E.cpl c) (a : Aux) (h
       congr 1
       simp only [step]
       cases lookup a.methods k <;> rfl
-    | call cs =>
+    | methods precs =>
+      simp only [specOuts, tableOf, step, compMethList_eq_spec]
+    | call precs =>
       simp only [specOuts, tableOf]
-      rw [call_eq_spec E a h cs hT (hwf cs (by simp))]
+      rw [call_eq_spec E a h precs (hwf precs (by simp))]
 
 /-- **The whole observable behaviour of a history** (what the model driver prints and the
     harness compares with the implementation) is the specification's. -/
-theorem history_outcomes_eq_spec (E : Env) (hT : ∀ c, E.tC ∈ E.cpl c) (ops : List Op)
-    (hwf : WellFormed E ops) :
-    (runOps E Aux.init ops).2 = specOuts E ops Table.empty := by
-  rw [runOps_eq_specOuts E hT _ (cache_coherent_init E) ops hwf, absT_init]
+theorem history_outcomes_eq_spec (E : Env) (ops : List Op) (hwf : WellFormed E ops) :
+    (runOps E Aux.init ops).2 = specOuts ops Table.empty := by
+  rw [runOps_eq_specOuts E _ (cache_coherent_init E) ops hwf, absT_init]
 
-example : WellFormed ⟨fun c => [c, 0], 0, 1⟩
-    [.defmethod .primary [0] ⟨1, .stop⟩, .call [3], .remove .primary [0], .call [2]] := by
+example : WellFormed ⟨0, 1⟩
+    [.defmethod .primary [0] ⟨1, .stop⟩, .call [[3, 0]], .remove .primary [0], .call [[2, 0]]] := by
   intro cs h
   simp at h
-  rcases h with rfl | rfl <;> rfl
+  rcases h with rfl | rfl <;> simp [GoodArgs]
 
 end SlipVerif.Dispatch
